@@ -88,6 +88,10 @@ def run(chk, repo):
 
     from .common_rules import stateless_constructs
     chk.attempt(stateless_constructs, chk, repo, "C05-F8")
+    from .common_rules import declared_multiplicities
+    usable = declared_multiplicities(chk, L, "C05-F9", ("leader", "volume", "trailer"))
+    if len(usable) < 3:
+        return  # the violation is reported; sizes of a sniffing layout are not defined
     total_leaves = 0
     for key in ("leader", "volume", "trailer"):
         leaves, end, _ = L.get(key)
@@ -128,7 +132,33 @@ def run(chk, repo):
             s, e = spans[fname]
             size = e - s
             want = Poly.sym(f"{fname}.preamble.record_length")
-            chk.require(
+            if size.has_func_atoms() and size != want:
+                # floor / mod / max / min in a size expression: not a polynomial identity - decided by evaluating the closed form on
+                # every admissible (length, count): lengths 16..40000 and the format's usual ones, counts 0..floor((L-16)/120) sampled
+                lsym = f"{fname}.preamble.record_length"
+                others = [x for x in size.plain_symbols() if x != lsym]
+                bad = None
+                n_eval = 0
+                lengths = list(range(16, 2600)) + list(range(2600, 40001, 7)) + [4096, 8192, 12000, 16320, 16384, 32768, 65536]
+                for Lv in lengths:
+                    cmax = max((Lv - 16) // 120, 0)
+                    for cv in sorted({0, 1, cmax // 2, cmax}):
+                        m = {lsym: Lv}
+                        m.update({o: cv for o in others})
+                        try:
+                            v = size.subs(m)
+                        except ZeroDivisionError as e:
+                            raise AnalysisError(f"{where}.{fname}: {e}")
+                        n_eval += 1
+                        if not v.is_const():
+                            raise AnalysisError(f"{where}.{fname}: size {size} does not fold for {m}")
+                        if v.value() != Lv and bad is None:
+                            bad = (Lv, cv, v.value())
+                chk.require(bad is None, "C05-F1", f"{where}.{fname}", f"sum of widths {size} == declared length on all {n_eval} (length, count) pairs of the domain (closed form with floor/mod, evaluated)",
+                            f"sum of widths is {size}: for a declared length of {bad[0] if bad else 0} bytes (count {bad[1] if bad else 0}) the record consumes {bad[2] if bad else 0} bytes - "
+                            f"the next record is decoded from bytes shifted by {(bad[2] - bad[0]) if bad else 0}", key=f"{key}:{fname}:selfdelim", sample={"record": fname, "size": str(size), "evaluated": n_eval})
+            else:
+              chk.require(
                 size == want, "C05-F1", f"{where}.{fname}",
                 f"sum of widths = {size} == {fname}.preamble.record_length for every count and length",
                 f"sum of widths is {size}, declared length is {want}: the next record is decoded "
